@@ -256,10 +256,18 @@ impl Request {
 
         r.next_if(|b| *b==b' ').ok_or_else(Response::BadRequest)?;
         
-        self.path.init_with_request_bytes(r.read_while(|b| !matches!(b, b' ' | b'?')))?;
+        let path_bytes = r.read_while(|b| !matches!(b, b' ' | b'?'));
+        if !path_bytes.iter().all(u8::is_ascii_graphic) {
+            return Err((|| Response::BadRequest())())
+        }
+        self.path.init_with_request_bytes(path_bytes)?;
 
         if r.consume_oneof([" ", "?"]).ok_or_else(Response::BadRequest)? == 1 {
-            self.query = QueryParams::new(r.read_while(|b| b != &b' '));
+            let query_bytes = r.read_while(|b| b != &b' ');
+            if !query_bytes.iter().all(u8::is_ascii_graphic) {
+                return Err((|| Response::BadRequest())())
+            }
+            self.query = QueryParams::new(query_bytes);
             r.advance_by(1);
         }
 
@@ -267,8 +275,18 @@ impl Request {
 
         while r.consume("\r\n").is_none() {
             let key_bytes = r.read_while(|b| b != &b':');
+            if key_bytes.is_empty() || !key_bytes.iter().all(|b| matches!(b,
+                | b'a'..=b'z' | b'A'..=b'Z' | b'0'..=b'9'
+                | b'!' | b'#' | b'$' | b'%' | b'&' | b'\'' | b'*' | b'+' | b'-' | b'.' | b'^' | b'_' | b'`' | b'|' | b'~'
+            )) {/* not a field name: a line without colon, whitespace before colon, obs-fold, control or non-ASCII bytes */
+                return Err((|| Response::BadRequest())())
+            }
             r.consume(": ").ok_or_else(Response::BadRequest)?;
-            let value = CowSlice::Ref(Slice::from_bytes(r.read_while(|b| b != &b'\r')));
+            let value_bytes = r.read_while(|b| b != &b'\r');
+            if value_bytes.iter().any(|b| matches!(b, b'\n' | b'\0')) || std::str::from_utf8(value_bytes).is_err() {
+                return Err((|| Response::BadRequest())())
+            }
+            let value = CowSlice::Ref(Slice::from_bytes(value_bytes));
             r.consume("\r\n").ok_or_else(Response::BadRequest)?;
 
             if let Some(key) = RequestHeader::from_bytes(key_bytes) {
